@@ -412,6 +412,10 @@ def run(ctx):
     generic_implicit(f_exp, "experimental[aed_windowed]", dict(variant="aed_windowed", max_iter=1, tol=TOL, window=12,
                                                                return_diagnostics=True),
                      lambda idx, rec, d: (idx, rec["H0"][n - 1, n - 1].w), nsteps_expected=None)
+    # the same with a window SMALLER than the active block (start > lo): the entries left of the window take part in the row updates
+    generic_implicit(f_exp, "experimental[aed_windowed,window=2]", dict(variant="aed_windowed", max_iter=1, tol=TOL, window=2,
+                                                                        return_diagnostics=True),
+                     lambda idx, rec, d: (idx + n - 2, rec["H0"][n - 1, n - 1].w), nsteps_expected=None)
     # dispatch of the simple variants of the unified API
     for variant, target, mode in (("none", "quaternion_schur_pure", "none"), ("rayleigh", "quaternion_schur_pure", "rayleigh"),
                                   ("implicit", "quaternion_schur_pure_implicit", "rayleigh")):
